@@ -121,7 +121,7 @@ def run(ctx, prog):
                         # two nested Some tests: removing either set of edges must cut the push
                         swb = sorted(set(j for j, _ in some_e))
                         cuts = all(i not in b.reach([0], avoid_edges=[e for e in some_e if e[0] == j]) for j in swb) if len(swb) >= 2 else False
-                        ctx.inst('C06.R1', b.short.split('::{')[0], 'result #%d carries a live external id and the raw distance' % sum(1 for x in ctx.instances if x['rule'] == 'C06.R1' and x['key'].startswith('C06.R1 | %s | result' % b.short.split('::{')[0])),
+                        ctx.inst('C06.R1', b.short.split('::{')[0], 'result #%d carries a live external id and the raw distance' % sum(1 for x in ctx.instances if x.get('config') == ctx.config and x['rule'] == 'C06.R1' and x['key'].startswith('C06.R1 | %s | result' % b.short.split('::{')[0])),
                                  okid and cuts and dist in ('var:r→SearchResult.distance',),
                                  'doc_id = %s…; distance = %s; behind %d nested Some tests' % (did[-110:], dist, len(swb)))
     ctx.floor('C06.R1', 'SearchResult construction sites in the backend search paths', n, 2, 'single and batch')
@@ -227,7 +227,7 @@ def run(ctx, prog):
             if not any(fb.id.endswith(cid) and 'filter_hot_knn_results_to_canonical(' in flow.render(flow.Origin(fb).of_local(0)) for cid in cids for fb in prog.family(b)):
                 ok = False
         n_m += 1
-        ctx.inst('C06.R3', b.short.split('::{')[0], 'merge #%d: hot candidates validated' % sum(1 for x in ctx.instances if x['rule'] == 'C06.R3' and x['key'].startswith('C06.R3 | %s |' % b.short.split('::{')[0])), ok, '')
+        ctx.inst('C06.R3', b.short.split('::{')[0], 'merge #%d: hot candidates validated' % sum(1 for x in ctx.instances if x.get('config') == ctx.config and x['rule'] == 'C06.R3' and x['key'].startswith('C06.R3 | %s |' % b.short.split('::{')[0])), ok, '')
     ctx.floor('C06.R3', 'merge call sites', n_m, 3, '')
 
     # ------------------------------------------------------------------ R4
@@ -271,10 +271,12 @@ def run(ctx, prog):
                        'DocumentStore.external_to_internal is never used after the compaction without a fresh lookup in between (a stale number tombstones or rewrites '
                        'whatever document now sits there: the overwritten document is returned twice with its old vector, an unrelated live document vanishes)')
     n6 = 0
+    done6 = set()
     for c0 in prog.callers_of('HnswBackend::compact_tombstones'):
         f = c0.body
-        if any(x['key'].startswith('C06.R6 | %s |' % f.short) for x in ctx.instances):
+        if f.id in done6:
             continue
+        done6.add(f.id)
         of6 = flow.Origin(f)
         comp = [c for c in f.calls if c.callee and c.callee.endswith('HnswBackend::compact_tombstones')]
         look = [c for c in f.calls if c.callee and re.search(r'::get(_mut)?$|::contains_key$|::remove$', c.callee) and c.args and
